@@ -919,4 +919,116 @@ theorem map_fst_ne_tail (irest : List ITok)
   obtain ⟨l, r4', rfl, h4⟩ := map_fst_cons h3
   exact h _ _ _ _ _ _ _ rfl
 
+
+theorem treeMetas_suffix (f : Nat) (its : List ITok) : (treeMetas f its).2 <:+ its := by
+  fun_induction treeMetas f its with
+  | case1 ts => exact List.suffix_refl _
+  | case2 f k i j l v m rest r ih =>
+    exact List.IsSuffix.trans ih ⟨[_, _, _, _], rfl⟩
+  | case3 f ts hne => exact List.suffix_refl _
+
+/-- **`visitAssociation`** (with `visitLinkname`, `visitField`, the `meta` comprehension and `_post_process_multitudes`):
+the tree builder fails iff the model parser fails; else the same tokens are consumed and the translated visitor
+returns the rendering of the model's association.  `intOK`: INT tokens carry ASCII digit strings. -/
+theorem association_loop (c : V → M V) (toks : List V) (wf : Nat) (f : Nat) (its : List ITok)
+    (hint : ∀ x ∈ its, intOK x.1 = true) :
+    match treeAssociation f its with
+    | none => parseAssociation f (its.map Prod.fst) = none
+    | some (t, irest) =>
+      ∃ a, parseAssociation f (its.map Prod.fst) = some (a, irest.map Prod.fst) ∧ (∃ cs, t = .rule "association" cs) ∧
+        (∀ z ∈ irest, z ∈ its) ∧
+        ∀ g up, t.depth ≤ g → visitF c toks wf g (.ctx t up) = .ok (rAssoc a) := by
+  fun_cases treeAssociation f its with
+  | case1 la i1 i2 lf i3 i4 r1 lm i5 name i6 i7 r2 h1 rm i8 rf i9 i10 ra i11 r3 h2 md r4 h3 =>
+    have m1 := mult_tie r1
+    rw [h1] at m1
+    obtain ⟨x, oy, a, ob, rfl, hx, hxm, hy, hp1, hs1⟩ := m1
+    have m2 := mult_tie r2
+    rw [h2] at m2
+    obtain ⟨x', oy', a', ob', rfl, hx', hxm', hy', hp2, hs2⟩ := m2
+    have hr1 : ∀ z ∈ r1, intOK z.1 = true := fun z hz => hint z (by simp [hz])
+    have hr2 : ∀ z ∈ r2, intOK z.1 = true := fun z hz => hr1 z (hs1 z (by simp [hz]))
+    have hm := treeMetas_rest f r3
+    rw [h3] at hm
+    have hmd : md = (treeMetas f r3).1 := by rw [h3]
+    refine ⟨_, ?_, ⟨_, rfl⟩, ?_, ?_⟩
+    rotate_left
+    · intro z hz
+      have hz3 : z ∈ r3 := by
+        have := (treeMetas_suffix f r3).subset; rw [h3] at this; exact this hz
+      have hz2 : z ∈ r2 := hs2 z (by simp [hz3])
+      have hz1 : z ∈ r1 := hs1 z (by simp [hz2])
+      simp [hz1]
+    · intro g up hg
+      subst hmd
+      simp only [depth_rule, depthL_append, PT.depthL, depth_tok, leaf] at hg
+      obtain ⟨g, rfl⟩ : ∃ g', g = g' + 1 := ⟨g - 1, by omega⟩
+      rw [visitF_association]
+      have hev := visitAssociation_eval c toks wf la lf name rf ra i1 i2 i3 i4 i5 i6 i7 i8 i9 i10 i11 x x' oy oy' f r3 up g
+        (by omega) (by omega)
+      simp only [assocNode, fieldNode, linkNode] at hev
+      rw [hev]
+      have hyi : match oy, ob with
+         | none, none => True
+         | some (_, y), some b => atomTok y.1 = some b ∧ intOK y.1 = true
+         | _, _ => False := by
+        rcases oy with _ | ⟨i, y⟩ <;> rcases ob with _ | b <;> first | exact hy | exact ⟨hy.1, hr1 _ hy.2⟩
+      have hyi' : match oy', ob' with
+         | none, none => True
+         | some (_, y), some b => atomTok y.1 = some b ∧ intOK y.1 = true
+         | _, _ => False := by
+        rcases oy' with _ | ⟨i, y⟩ <;> rcases ob' with _ | b <;> first | exact hy' | exact ⟨hy'.1, hr2 _ hy'.2⟩
+      rw [pp_tie _ _ _ _ _ _ _ _ _ _ _ _ _ (multOK_of x oy a ob hx (hr1 _ hxm) hyi) (multOK_of x' oy' a' ob' hx' (hr2 _ hxm') hyi')]
+      rfl
+    · simp only [List.map_cons, parseAssociation, hp1, hp2]
+      rw [← hm]
+  | case2 la i1 i2 lf i3 i4 r1 lm i5 name i6 i7 r2 h1 hne =>
+    show parseAssociation _ _ = none
+    have m1 := mult_tie r1
+    rw [h1] at m1
+    obtain ⟨x, oy, a, ob, rfl, hx, hxm, hy, hp1, hs1⟩ := m1
+    simp only [List.map_cons, parseAssociation, hp1]
+    have m2 := mult_tie r2
+    cases h2 : treeMult r2 with
+    | none => rw [h2] at m2; rw [m2]
+    | some p =>
+      obtain ⟨rm, irest⟩ := p
+      rw [h2] at m2
+      obtain ⟨x', oy', a', ob', rfl, hx', hxm', hy', hp2, hs2⟩ := m2
+      rw [hp2]
+      split
+      · rename_i heq
+        simp only [Option.some.injEq, Prod.mk.injEq] at heq
+        exact (map_fst_ne_tail irest (fun i8 rf i9 i10 ra i11 r3 e => hne _ i8 rf i9 i10 ra i11 r3 (by rw [e])) _ _ _ heq.2).elim
+      · rfl
+  | case3 la i1 i2 lf i3 i4 r1 hne =>
+    show parseAssociation _ _ = none
+    simp only [List.map_cons, parseAssociation]
+    have m1 := mult_tie r1
+    cases h1 : treeMult r1 with
+    | none => rw [h1] at m1; rw [m1]
+    | some p =>
+      obtain ⟨lm, irest⟩ := p
+      rw [h1] at m1
+      obtain ⟨x, oy, a, ob, rfl, hx, hxm, hy, hp1, hs1⟩ := m1
+      rw [hp1]
+      split
+      · rename_i heq
+        simp only [Option.some.injEq, Prod.mk.injEq] at heq
+        exact (map_fst_ne_link irest (fun i5 name i6 i7 r2 e => hne _ i5 name i6 i7 r2 (by rw [e])) _ _ heq.2).elim
+      · rfl
+  | case4 hne =>
+    show parseAssociation _ _ = none
+    unfold parseAssociation
+    split
+    · rename_i la lf r1 heq
+      exfalso
+      obtain ⟨i, r1, rfl, h1⟩ := map_fst_cons heq
+      obtain ⟨j, r2', rfl, h2⟩ := map_fst_cons h1
+      obtain ⟨k, r3', rfl, h3⟩ := map_fst_cons h2
+      obtain ⟨l, r4', rfl, h4⟩ := map_fst_cons h3
+      exact hne _ _ _ _ _ _ _ rfl
+    · rfl
+
+
 end MalVerif.Py.Visitor
